@@ -16,6 +16,7 @@ EXPLANATION = (
     "against those dimensions in clip mode.  These are term identities (ring normal form), so they "
     "hold for every dimension count and every bound, including non-zero and negative lower bounds. "
     "Does not decide NumPy/JAX's own row-major semantics of product / ravel_multi_index."
+    ' The shared-state clause R19.5 covers any container constructor at module or class level (through local aliases and type(self)) and writes into the problem object from solver code; the space may be listed by itertools.product, the np.indices grid idiom or an ij-indexed np.meshgrid (xy indexing, narrow or min_scalar_type dtypes of the ranges are reported).'
 )
 RULES = {
     "R19.1": "the multi-index passed to ravel_multi_index is VECTOR - MINS (translation by the lower bounds)",
